@@ -372,12 +372,19 @@ func cmdC10Script(seed uint64, n int, dir string) {
 		kind := mapKinds[c%len(mapKinds)]
 		ops := genSOps(r, kind, 8+r.intn(30), 1)
 		var sb strings.Builder
-		form := r.intn(3)
+		form := r.intn(5)
 		switch form {
 		case 0:
 			fmt.Fprintf(&sb, "m := map[%s]int{}\n", kind.goType)
 		case 1:
 			fmt.Fprintf(&sb, "m := make(map[%s]int)\n", kind.goType)
+		case 3:
+			// a size hint changes nothing observable (the zero key of a hinted map is still one key)
+			fmt.Fprintf(&sb, "m := make(map[%s]int, %d)\n", kind.goType, r.intn(9))
+			st.Histogram["map made with a size hint"]++
+		case 4:
+			fmt.Fprintf(&sb, "hint := %d\nm := make(map[%s]int, hint)\n", r.intn(9), kind.goType)
+			st.Histogram["map made with a size hint"]++
 		default:
 			fmt.Fprintf(&sb, "m := map[%s]int{%s: 7}\n", kind.goType, kind.keys[0])
 		}
